@@ -30,8 +30,8 @@ from ..realise import fsdoc
 SPEC = os.path.join(SPECS, "fs", "MC_FsConfine.tla")
 TRACE_SPEC = os.path.join(SPECS, "fs", "FsTrace.tla")
 INVARIANTS = ["ReadsConfined", "WritesConfined", "NeverOverwrite", "DistinctNames", "BlameSound", "LookupBounded"]
-BOUNDS = {"quick": {"cmap": 3, "image": 2, "image_cases": "AllImageCases", "image_more": None, "image_deep": None, "image_ext": 1},
-          "thorough": {"cmap": 4, "image": 2, "image_cases": "AllImageCases", "image_more": 3, "image_deep": 4, "image_ext": 2}}
+BOUNDS = {"quick": {"cmap": 3, "image": 2, "image_cases": "AllImageCases", "image_more": None, "image_deep": None, "image_ext": 1, "look": 2},
+          "thorough": {"cmap": 4, "image": 2, "image_cases": "AllImageCases", "image_more": 3, "image_deep": 4, "image_ext": 2, "look": 3}}
 BATCH = 16
 EXT = ".bmp"
 CODED_DEV = []
@@ -144,6 +144,11 @@ def direction_a(ck, dev):
                         "ImageCases": "<- NoImageCases"}, ["AStart", "ATryDir"]),
               ("image", {"MaxSeg": 0, "MaxSegImage": b["image"], "Names": "<- ImageNames", "CMapSites": "<- NoSites",
                          "ImageCases": "<- " + b["image_cases"]}, ["AStart", "AExport"])]
+    # names spelled with characters that only look like separators / dots (fullwidth, one dot leader, ligatures, overlong UTF-8)
+    spaces.append(("imagelook", {"MaxSeg": 0, "MaxSegImage": b["look"], "Names": "<- LookNames", "CMapSites": "<- NoSites",
+                                 "ImageCases": "<- LookImageCases" + ("Quick" if ck.tier == "quick" else "")}, ["AStart", "AExport"]))
+    spaces.append(("cmaplook", {"MaxSeg": 0, "MaxSegImage": 2, "Names": "<- LookNames", "CMapSites": "<- AllCMapSites",
+                                "ImageCases": "<- NoImageCases"}, ["AStart", "ATryDir"]))
     # every way the image dictionary's entries can fill the extension, XObject and inline images
     spaces.append(("imageext", {"MaxSeg": 0, "MaxSegImage": b["image_ext"], "Names": "<- ImageNamesRel", "CMapSites": "<- NoSites",
                                 "ImageCases": "<- ExtImageCases"}, ["AStart", "AExport"]))
@@ -184,7 +189,8 @@ def direction_a(ck, dev):
                 r = json.loads(line)
                 n_emitted += 1
                 if r["s"] == "image":
-                    k = (r["n"]["abs"], tuple(r["n"]["segs"]), tuple(sorted(r["ic"]["init"])), r["ic"]["draws"], r["ic"]["ext"], r["ic"]["src"])
+                    k = (r["n"]["abs"], tuple(r["n"]["segs"]), r["n"].get("look", "ascii"), tuple(sorted(r["ic"]["init"])), r["ic"]["draws"],
+                         r["ic"]["ext"], r["ic"]["src"])
                     if k not in seen_img:
                         seen_img.add(k)
                         image_cases.append(r)
@@ -282,9 +288,9 @@ def judge_cmap(ck, site, group, res, meta, final):
         return False
     names = [r["n"] for r in group]
     for r in group:
-        ck.case(1, ("cmap", site, r["n"]["abs"], tuple(r["n"]["segs"])) if any(s in ("dd", "e", "nul", "long", "dec", "sib", "ndd", "n0") for s in r["n"]["segs"]) or r["n"]["abs"] else None)
+        ck.case(1, ("cmap", site, r["n"]["abs"], tuple(r["n"]["segs"]), r["n"].get("look", "ascii")) if r["n"].get("look", "ascii") != "ascii" or any(s in ("dd", "e", "nul", "long", "dec", "sib", "ndd", "n0") for s in r["n"]["segs"]) or r["n"]["abs"] else None)
     if len(ck.samples) < 3 and observed:
-        ck.sample({"site": site, "names": [fsdoc.spell(n, "$ROOT").replace("\0", "\\0")[:60] for n in names][:6],
+        ck.sample({"site": site, "names": [fsdoc.seen_name(fsdoc.spell(n, "$ROOT")).replace("\0", "\\0")[:60] for n in names][:6],
                    "files_opened": sorted("/".join(d) + "/" + w for d, w in observed)})
     case = {"site": site, "names": names, "observed_reads": sorted(map(str, observed)), "predicted_reads": sorted(map(str, predicted)),
             "other": outside[:5], "exception": res["exc"]}
@@ -308,8 +314,9 @@ def image_job(jid, r):
     draws = r["ic"]["draws"]
 
     def fin(j):
-        text = image_text(r, j["root"])
-        pdf, _ = fsdoc.image_doc(text, draws, ext=r["ic"].get("ext", "bmp"), src=r["ic"].get("src", "xobj"))
+        doc_text = image_text(r, j["root"])
+        text = fsdoc.seen_name(doc_text)
+        pdf, _ = fsdoc.image_doc(doc_text, draws, ext=r["ic"].get("ext", "bmp"), src=r["ic"].get("src", "xobj"))
         j["pdf"] = base64.b64encode(pdf).decode()
         pre = []
         for k in init:
@@ -322,7 +329,7 @@ def image_job(jid, r):
 
 def judge_image(ck, r, res):
     root = os.path.dirname(res["input"])
-    text = image_text(r, root)
+    text = fsdoc.seen_name(image_text(r, root))       # the name as the library's literal_name() hands it on
     init, draws = r["ic"]["init"], r["ic"]["draws"]
     # ---- the property's predicates on the real run
     created = res["created"]
@@ -376,8 +383,8 @@ def judge_image(ck, r, res):
     else:
         same = set(created) == pred_created and pred_above == 0 and (real_err or None) == pred_err
     hostile = r["n"]["abs"] or any(s in ("dd", "e", "nul", "long", "dec", "sub", "d", "sib", "ndd", "n0") for s in r["n"]["segs"]) or len(r["n"]["segs"]) != 1
-    hostile = hostile or ext_kind not in ("bmp", "raw")
-    ck.case(1, ("image", r["n"]["abs"], tuple(r["n"]["segs"]), tuple(init), draws, ext_kind, src) if hostile or init else None)
+    hostile = hostile or ext_kind not in ("bmp", "raw") or r["n"].get("look", "ascii") != "ascii"
+    ck.case(1, ("image", r["n"]["abs"], tuple(r["n"]["segs"]), r["n"].get("look", "ascii"), tuple(init), draws, ext_kind, src) if hostile or init else None)
     case = {"site": "image", "name": r["n"], "init": init, "draws": draws, "ext": ext_kind, "src": src, "created": created, "modified": res["modified"],
             "deleted": res["deleted"], "blocked_outside_scratch": [e.get("path") for e in blocked], "exception": res["exc"],
             "model_created": sorted(pred_created), "model_error": pred_err}
